@@ -8,7 +8,7 @@
    the implementation IS the list-of-symbols reference, for all histories, not per operation. *)
 From Coq Require Import List Arith NArith Lia Bool.
 From BioSeq Require Import Bits Codec Tables Spec SeqModel KmerModel VM SeqProofs SeqProofs2 IterProofs
-  OrderProofs History IupacProofs KmerProofs KmerProofs2 Rev2Bit.
+  OrderProofs History IupacProofs KmerProofs KmerProofs2 Rev2Bit KmerDna.
 Import ListNotations.
 
 (* registers, the current k-mer (storage type, symbols) once one has been made, observations *)
@@ -438,6 +438,69 @@ Definition lm_step (l : lstate) (o : op) : option lstate :=
       | None => None
       end
   | KUsize => match lk l with Some (w, ks) => Some (lemit l [kint ks]) | None => None end
+  (* a k-mer from its integer: the base-2^BITS digits of a value below 2^(K*BITS) *)
+  | KInt k w lo hi =>
+      let K := N.to_nat k in
+      let v := ((lo + 2 ^ 64 * hi) mod 2 ^ N.of_nat (wbits w))%N in
+      if kfits K w && (v <? 2 ^ N.of_nat (K * Bw))%N
+      then (let ks := codes Bw (to_bits (K * Bw) v) in
+            if forallb gb ks then Some (lsetk l w ks) else None)
+      else None
+  (* complement of 2-bit k-mers in one word: 3 - x at every position *)
+  | KComp | KToComp =>
+      match lk l with
+      | Some (w, ks) =>
+          if (Bw =? 2) && (wbits w =? 64) && forallb gb (map comp2 ks)
+          then Some (lsetk l w (map comp2 ks)) else None
+      | None => None
+      end
+  | KRevComp | KToRevComp =>
+      match lk l with
+      | Some (w, ks) =>
+          if (Bw =? 2) && (wbits w =? 64) && forallb gb (map comp2 ks)
+          then Some (lsetk l w (rev (map comp2 ks))) else None
+      | None => None
+      end
+  (* word images and integer views of whole sequences *)
+  | OFromRaw n ws =>
+      if 64 * length ws <? N.to_nat n * Bw then Some (lpush (lemit l [0%N]) [])
+      else (let xs := codes Bw (firstn (N.to_nat n * Bw) (words_bits ws)) in
+            if forallb gb xs then Some (lpush (lemit l [1%N]) xs) else None)
+  | OToU8 d =>
+      match lslice l d with
+      | Some xs => if (1 <=? Bw * length xs) && (Bw * length xs <=? 8)
+                   then Some (lemit l [kint xs]) else None
+      | None => None
+      end
+  | OIntoUsize r =>
+      match lget l r with
+      | Some xs => if (1 <=? Bw * length xs) && (Bw * length xs <=? 64)
+                   then Some (lemit l [kint xs]) else None
+      | None => None
+      end
+  (* a SeqArray holding cs: four views of it, hash / equality with itself and a slice, k-mer
+     equality for one-word arrays, IUPAC contains *)
+  | OArr cs d =>
+      match lslice l d with
+      | Some q =>
+          if forallb gb cs then
+            let lc := lenc cs in
+            let sep := [777%N] in
+            let base := lc ++ sep ++ lc ++ sep ++ lc ++ sep ++ lc ++ sep ++
+                        [1%N; 1%N; b2n (list_eqb cs q)] in
+            let kpart := if length cs * Bw <=? 64 then
+                           sep ++ [1%N; 1%N] ++
+                           (if length q =? length cs
+                            then [b2n (list_eqb q cs); b2n (list_eqb q cs)] else [2%N; 2%N])
+                         else [] in
+            let cpart := if c_has_mask C then [] else
+                         if Bw =? 4
+                         then sep ++ [b2n ((length q =? length cs) && list_eqb (map2 N.land cs q) q)]
+                         else [] in
+            Some (lemit l (base ++ kpart ++ cpart))
+          else None
+      | None => None
+      end
   | _ => None
   end.
 
@@ -753,6 +816,13 @@ Proof.
   apply codes_encode; [apply (Bpos C OK)|apply good_small; exact G].
 Qed.
 
+Lemma words_bits_length ws : length (words_bits ws) = 64 * length ws.
+Proof.
+  unfold words_bits. rewrite (concat_uniform_length (k := 64)).
+  - now rewrite map_length.
+  - induction ws; cbn [map]; constructor; [apply to_bits_length | assumption].
+Qed.
+
 (* ---------- k-mers ---------- *)
 Lemma kfits_spec k w : kfits C k w = true -> 1 <= k /\ k * B <= wbits w.
 Proof.
@@ -915,6 +985,19 @@ Proof.
     reg_in A H. reg_in A H. rewrite R, R0. cbn [bind].
     destruct (lbitop C N.lor rs rs0) as [r|] eqn:M; [|discriminate]. destruct (lbitop_or _ _ _ M) as [M1 M2].
     rewrite M1. inversion H; subst; clear H. eexists. split; [reflexivity|]. apply push_abs; assumption.
+  - (* from_raw *)
+    rewrite from_raw_spec. unfold nn.
+    destruct (64 * length ws <? N.to_nat n * B) eqn:E.
+    + inversion H; subst; clear H. eexists. split; [reflexivity|]. change (@nil bool) with (encode B []).
+      apply push_abs; [apply emit_abs; exact A|constructor].
+    + destruct (forallb gbC (codes B (firstn (N.to_nat n * B) (words_bits ws)))) eqn:V; [|discriminate].
+      inversion H; subst; clear H. apply Nat.ltb_ge in E.
+      assert (L : length (firstn (N.to_nat n * B) (words_bits ws)) = B * N.to_nat n).
+      { rewrite firstn_length, words_bits_length. lia. }
+      pose proof (encode_codes _ _ (Bpos C OK) L) as EC.
+      remember (codes B (firstn (N.to_nat n * B) (words_bits ws))) as xs eqn:Exs.
+      rewrite <- EC. eexists. split; [reflexivity|].
+      apply push_abs; [apply emit_abs; exact A|apply gbC_goods; exact V].
   - (* serde round trip *)
     reg_in A H. rewrite R. cbn [bind]. inversion H; subst; clear H.
     eexists. split; [reflexivity|]. apply push_abs; [apply emit_abs; exact A|exact G].
@@ -1046,6 +1129,14 @@ Proof.
     destruct (B * length xs <=? 64).
     + destruct (1 <=? B * length xs); [|discriminate]. cbn [bind]. done_emit A H.
     + cbn [bind]. done_emit A H.
+  - (* u8::from(&slice) *)
+    slice_in A H. rewrite S. cbn [bind]. unfold to_u8. rewrite length_encode.
+    destruct ((1 <=? B * length xs) && (B * length xs <=? 8)); [|discriminate]. cbn [assert bind].
+    rewrite of_bits_encode by (apply good_small; exact G). done_emit A H.
+  - (* usize::from(Seq) *)
+    reg_in A H. rewrite R. cbn [bind]. unfold into_usize. rewrite length_encode.
+    destruct ((1 <=? B * length rs) && (B * length rs <=? 64)); [|discriminate]. cbn [assert bind].
+    rewrite of_bits_encode by (apply good_small; exact G). done_emit A H.
   - (* into_raw: the live region of the word image *)
     reg_in A H. rewrite R. cbn [bind]. rewrite (intoraw_enc _ G). done_emit A H.
   - (* hash feeds *)
@@ -1069,6 +1160,14 @@ Proof.
   - (* Seq::from(BitVec) *)
     destruct (forallb gbC cs) eqn:V; [|discriminate]. inversion H; subst; clear H.
     eexists. split; [reflexivity|]. apply push_abs; [exact A|apply gbC_goods; exact V].
+  - (* SeqArray *)
+    slice_in A H. rewrite S. cbn [bind].
+    destruct (forallb gbC cs) eqn:V; [|discriminate]. pose proof (gbC_goods _ V) as Gc.
+    rewrite (lencodes_enc _ Gc). cbn [bind].
+    rewrite !(eqb_enc cs xs), !(eqb_enc xs cs) by assumption.
+    rewrite (slen_encode C OK).
+    rewrite (contains_spec C OK) by (auto using good_small).
+    unfold list_eqb at 3. done_emit A H.
   - (* Kmer::try_from(slice) *)
     slice_in A H. rewrite S. cbn [bind]. unfold nn. eapply make_sound; eassumption.
   - (* Kmer::unsafe_from *)
@@ -1087,6 +1186,20 @@ Proof.
     + rewrite lparse_sound. destruct (lparse C bytes) as [xs|b] eqn:P.
       * eapply make_sound; [exact A|eapply lparse_good; exact P|exact H].
       * cbn [bind kerr_obs]. done_emit A H.
+  - (* Kmer::from(integer) *)
+    unfold nn. set (K := N.to_nat k) in *.
+    set (v := ((lo + 2 ^ 64 * hi) mod 2 ^ N.of_nat (wbits w))%N) in *.
+    destruct (kfits C K w) eqn:F; [|discriminate]. destruct (kfits_spec _ _ F) as [F1 F2].
+    destruct (N.ltb_spec v (2 ^ N.of_nat (K * B))) as [Hv|]; [|discriminate]. cbn [andb] in H.
+    destruct (forallb gbC (codes B (to_bits (K * B) v))) eqn:V; [|discriminate].
+    inversion H; subst; clear H. eexists. split; [reflexivity|].
+    assert (L : length (to_bits (K * B) v) = B * K) by (rewrite to_bits_length; lia).
+    assert (LK : length (codes B (to_bits (K * B) v)) = K) by (apply (codes_length _ _ (Bpos C OK) L)).
+    assert (E : kval C (codes B (to_bits (K * B) v)) = v).
+    { unfold kval. rewrite (encode_codes _ _ (Bpos C OK) L). apply to_bits_small. exact Hv. }
+    remember (codes B (to_bits (K * B) v)) as ks eqn:Eks. rewrite <- E.
+    apply setk_abs; [exact A|apply gbC_goods; exact V|rewrite LK; exact F1|rewrite LK; exact F2|].
+    rewrite LK. unfold K. now rewrite N2Nat.id.
   - (* Kmer::try_from(Seq) *)
     reg_in A H. rewrite R. cbn [bind]. unfold nn. eapply make_sound; eassumption.
   - (* kmers iterator *)
@@ -1193,6 +1306,50 @@ Proof.
     destruct (mapM (to_char C) ks) as [d|]; [|discriminate]. cbn [bind]. done_emit A H.
   - (* usize::from(&kmer) *)
     kmer_in A H. rewrite (kint_kval _ K6). done_emit A H.
+  - (* complement in place *)
+    kmer_in A H.
+    destruct (Nat.eqb_spec B 2) as [B2|]; [|discriminate].
+    destruct (Nat.eqb_spec (wbits w) 64) as [W64|]; [|discriminate]. cbn [andb] in H.
+    destruct (forallb gbC (map comp2 ks)) eqn:V; [|discriminate].
+    rewrite W64 in *. rewrite B2 in K5.
+    rewrite (kcomplement_2bit C OK _ K4 B2 K5) by reflexivity.
+    inversion H; subst; clear H. eexists. split; [reflexivity|].
+    apply setk_abs; [exact A|apply gbC_goods; exact V|rewrite map_length; exact K4
+                    |rewrite map_length, W64, B2; exact K5|rewrite map_length; reflexivity].
+  - (* to_comp *)
+    kmer_in A H.
+    destruct (Nat.eqb_spec B 2) as [B2|]; [|discriminate].
+    destruct (Nat.eqb_spec (wbits w) 64) as [W64|]; [|discriminate]. cbn [andb] in H.
+    destruct (forallb gbC (map comp2 ks)) eqn:V; [|discriminate].
+    rewrite W64 in *. rewrite B2 in K5.
+    rewrite (kcomplement_2bit C OK _ K4 B2 K5) by reflexivity.
+    inversion H; subst; clear H. eexists. split; [reflexivity|].
+    apply setk_abs; [exact A|apply gbC_goods; exact V|rewrite map_length; exact K4
+                    |rewrite map_length, W64, B2; exact K5|rewrite map_length; reflexivity].
+  - (* revcomp in place *)
+    kmer_in A H.
+    destruct (Nat.eqb_spec B 2) as [B2|]; [|discriminate].
+    destruct (Nat.eqb_spec (wbits w) 64) as [W64|]; [|discriminate]. cbn [andb] in H.
+    destruct (forallb gbC (map comp2 ks)) eqn:V; [|discriminate].
+    rewrite W64 in *. rewrite B2 in K5.
+    rewrite (krevcomp_2bit C OK _ K4 B2 K5) by reflexivity. cbn [bind].
+    inversion H; subst; clear H. eexists. split; [reflexivity|].
+    apply setk_abs; [exact A|apply Forall_rev; apply gbC_goods; exact V
+                    |rewrite rev_length, map_length; exact K4
+                    |rewrite rev_length, map_length, W64, B2; exact K5
+                    |rewrite rev_length, map_length; reflexivity].
+  - (* to_revcomp *)
+    kmer_in A H.
+    destruct (Nat.eqb_spec B 2) as [B2|]; [|discriminate].
+    destruct (Nat.eqb_spec (wbits w) 64) as [W64|]; [|discriminate]. cbn [andb] in H.
+    destruct (forallb gbC (map comp2 ks)) eqn:V; [|discriminate].
+    rewrite W64 in *. rewrite B2 in K5.
+    rewrite (krevcomp_2bit C OK _ K4 B2 K5) by reflexivity. cbn [bind].
+    inversion H; subst; clear H. eexists. split; [reflexivity|].
+    apply setk_abs; [exact A|apply Forall_rev; apply gbC_goods; exact V
+                    |rewrite rev_length, map_length; exact K4
+                    |rewrite rev_length, map_length, W64, B2; exact K5
+                    |rewrite rev_length, map_length; reflexivity].
 Qed.
 
 (* every history: the observations of the bit-level VM are those of the list machine *)
